@@ -40,7 +40,7 @@ EXPLANATION = (
     'NOT decided: equality of the outputs of twin objects (run-time) and absence of every uninitialised read on every '
     'path beyond the state-level argument.')
 
-CONFIGS = {'quick': ['float'], 'thorough': ['float', 'fixed', 'custom']}
+CONFIGS = {'quick': ['float', 'custom'], 'thorough': ['float', 'fixed', 'custom']}
 
 EXC = os.path.join(VERIF, 'spec', 'c12_reset_exceptions.json')
 
@@ -877,7 +877,7 @@ def r12_7_residue(rep, prog, settings, excmap):
              'tonality_analysis_init', 'tonality_analysis_reset'}
     CTLS = {'opus_encoder_ctl', 'opus_decoder_ctl', 'opus_custom_encoder_ctl', 'opus_custom_decoder_ctl'}
     nchecked = 0
-    for rec, inits, hname, req, sizefn in OBJECTS[:2]:
+    for rec, inits, hname, req, sizefn in OBJECTS[:4]:
         if rec not in prog.records:
             continue
         hf, hcf, hblocks = handler(prog, hname, req)
@@ -926,7 +926,7 @@ def r12_7_residue(rep, prog, settings, excmap):
                 # can the value survive into a later call?  entry-stale reads in the Opus layer
                 stale_in = []
                 for fn in prog.functions_all:
-                    if fn.file.startswith('src/') and any(sx.kind(n) == 'field' and n[2] == R and n[3] == F for n in fn.all_nodes()):
+                    if fn.file.startswith(('src/', 'celt/') if rec.startswith('OpusCustom') else 'src/') and any(sx.kind(n) == 'field' and n[2] == R and n[3] == F for n in fn.all_nodes()):
                         if fn.name.startswith('validate_'):
                             continue
                         if entry_stale_reads(fn, R, F, trans):
